@@ -10,10 +10,22 @@ Streams
               exchange), cod[perm[i]] == dom[i], only swaps of two atomic types at in-range
               offsets, non-permutations and length mismatches raise ValueError; for tensor and
               circuit diagrams the evaluated array is the exact 0/1 permutation matrix.
+* `cq-swap`   the EVALUATION target of circuit swaps, `CQMap.swap(left, right)` called directly on
+              classical-quantum types whose classical and quantum parts have different lengths and
+              dimensions (empty parts, C @ Q on either side), against the model's `CQMap.swap`
+              (`cqexpr swap`, theorem `cq_swap_spec`) and, as oracle, against the wire-permutation
+              tensor over `classical @ quantum @ quantum` built here with plain loops: wire
+              dimensions of the underlying tensor AND entries.
+* `cq-eval`   Circuit.swap / Circuit.permutation over bits, Digit(k), qubits and Qudit(k) of
+              DIFFERENT dimensions, evaluated with `eval()` and `eval(mixed=True)`: the real array
+              against the model's evaluation of the same circuit (`cqeval auto|mixed`) and, as
+              oracle, against the wire-permutation tensor in the layout of the class returned
+              (Tensor: one axis per wire; CQMap: classical wires once, quantum wires doubled).
 """
 import itertools
 import os
 import random
+import re
 
 # the arrays evaluated here are tiny; one BLAS/OpenMP thread avoids spinning on all cores
 for _v in ("OMP_NUM_THREADS", "OPENBLAS_NUM_THREADS", "MKL_NUM_THREADS"):
@@ -131,6 +143,24 @@ class TensorC(Cls):
         return f(d).array
 
 
+_KIND = re.compile(r"^(Digit|Qudit)\((\d+)\)$")
+
+# the names circuit.py gives its wires (circuit.py:105-128): Digit(2) is "bit", Qudit(2) "qubit"
+CLASSICAL_WIRES = ["bit", "Digit(3)", "Digit(5)"]
+QUANTUM_WIRES = ["qubit", "Qudit(3)", "Qudit(4)"]
+SMALL_WIRES = ["bit", "Digit(3)", "qubit", "Qudit(3)"]
+
+
+def wire_kind(name):
+    """("c" | "q", dimension) of a circuit wire, from its name."""
+    if name == "bit":
+        return "c", 2
+    if name == "qubit":
+        return "q", 2
+    m = _KIND.match(name)
+    return ("c" if m.group(1) == "Digit" else "q"), int(m.group(2))
+
+
 class CircuitC(Cls):
     name = "circuit"
     evaluates = True
@@ -142,7 +172,8 @@ class CircuitC(Cls):
     def ty(self, spec):
         t = self.m.Ty()
         for n, _ in spec:
-            t = t @ (self.m.qubit if n == "qubit" else self.m.bit)
+            kind, dim = wire_kind(n)
+            t = t @ self.m.Ty(self.m.Digit(dim) if kind == "c" else self.m.Qudit(dim))
         return t
 
     def default_dom(self, n):
@@ -152,12 +183,23 @@ class CircuitC(Cls):
         return self.m.qubit ** n
 
     def distinct(self, n, rng):
+        # circuits have no pairwise distinct wire types beyond their dimensions: qubits only,
+        # bits only, bits and qubits, and digits / qudits of DIFFERENT dimensions (a swap of two
+        # different wire types is a mixed box, circuit.py:688, and is evaluated by CQMap.swap)
         mode = rng.random()
-        if mode < 0.4:
+        if mode < 0.25:
             return [("qubit", 0)] * n
-        if mode < 0.55:
+        if mode < 0.33:
             return [("bit", 0)] * n
-        return [(rng.choice(["qubit", "bit"]), 0) for _ in range(n)]
+        if mode < 0.5:
+            return [(rng.choice(["qubit", "bit"]), 0) for _ in range(n)]
+        if mode < 0.62:
+            return [(rng.choice(QUANTUM_WIRES), 0) for _ in range(n)]
+        if mode < 0.7:
+            return [(rng.choice(CLASSICAL_WIRES), 0) for _ in range(n)]
+        if mode < 0.9:
+            return [(rng.choice(SMALL_WIRES), 0) for _ in range(n)]
+        return [(rng.choice(CLASSICAL_WIRES + QUANTUM_WIRES), 0) for _ in range(n)]
 
 
 class ZXC(Cls):
@@ -247,33 +289,113 @@ def exact_int_array(a):
     return r.astype(numpy.int64)
 
 
-def expected_array(cls, dom_spec, perm):
-    """What the evaluation of a wire permutation must be, or None if we do not evaluate it."""
-    n = len(dom_spec)
-    if cls.name == "tensor":
-        dims = [m for m, _ in dom_spec]
-        size = 1
-        for m in dims:
-            size *= m
-        if size * size > 400000:
-            return None
-        return perm_matrix(dims, perm)
-    if cls.name == "circuit":
-        kinds = [m for m, _ in dom_spec]
-        if len(set(kinds)) <= 1:                      # pure: tensor.Functor, one axis per wire
-            return perm_matrix([2] * n, perm)
-        # mixed: CQMap, axes = classical wires, quantum wires, quantum wires again (cqmap.py:113)
-        cin = [k for k in range(n) if kinds[k] == "bit"]
-        qin = [k for k in range(n) if kinds[k] == "qubit"]
-        cout = sorted(perm[k] for k in cin)
-        qout = sorted(perm[k] for k in qin)
-        vperm = [cout.index(perm[k]) for k in cin]
-        vperm += [len(cin) + qout.index(perm[k]) for k in qin]
-        vperm += [len(cin) + len(qin) + qout.index(perm[k]) for k in qin]
-        if len(vperm) > 9:
-            return None
-        return perm_matrix([2] * len(vperm), vperm)
+MAX_ENTRIES = 400000
+MODEL_ENTRIES = 100000         # CQMap.swap is compared with the model up to this size
+
+
+def evaluable(dom_spec):
+    """A tensor diagram on these dimensions is evaluated while its array stays small."""
+    size = 1
+    for m, _ in dom_spec:
+        size *= m
+    return size * size <= MAX_ENTRIES
+
+
+def dim_list(dim):
+    """A discopy Dim as a list of ints."""
+    return [int(x.name) for x in dim.objects]
+
+
+def block_exchange(a, b, offset=0):
+    """Positions of the wires of `left` (a of them) then `right` (b) after the swap: every wire
+    of left, in order, to the right of every wire of right."""
+    return [offset + b + i for i in range(a)] + [offset + i for i in range(b)]
+
+
+def cq_layout(kinds, perm):
+    """The classical-quantum reading of a wire permutation.  kinds[k] = ("c" | "q", dim) of input
+    wire k, perm[k] its output position.  A CQMap keeps the classical wires once and the quantum
+    wires twice, `classical @ quantum @ quantum` on either side (cqmap.py:102-118), each part in
+    the order of the wires.  Returns (classical dom, quantum dom, classical cod, quantum cod,
+    wire dimensions of the underlying domain, permutation of the underlying wires)."""
+    n = len(kinds)
+    cin = [k for k in range(n) if kinds[k][0] == "c"]
+    qin = [k for k in range(n) if kinds[k][0] == "q"]
+    cout = sorted(cin, key=lambda k: perm[k])
+    qout = sorted(qin, key=lambda k: perm[k])
+    dim = [d for _, d in kinds]
+    vperm = [cout.index(k) for k in cin]
+    vperm += [len(cin) + qout.index(k) for k in qin]
+    vperm += [len(cin) + len(qin) + qout.index(k) for k in qin]
+    return ([dim[k] for k in cin], [dim[k] for k in qin], [dim[k] for k in cout],
+            [dim[k] for k in qout], [dim[k] for k in cin] + 2 * [dim[k] for k in qin], vperm)
+
+
+def permuted(dims, perm):
+    out = [None] * len(dims)
+    for k, d in enumerate(dims):
+        out[perm[k]] = d
+    return out
+
+
+def product(xs):
+    out = 1
+    for x in xs:
+        out *= x
+    return out
+
+
+def array_failure(arr, dims, perm):
+    """None if `arr` is the exact 0/1 tensor of shape dims + permuted dims that sends input wire
+    k to position perm[k]; otherwise (signature head, text)."""
+    exp = perm_matrix(dims, perm)
+    got = exact_int_array(arr)
+    if exp.ndim == 0 and got is not None and got.size == 1:
+        got = got.reshape(())                      # no wire at all: a 1 x 1 identity
+    if got is not None and got.shape != exp.shape and got.size == exp.size:
+        return ("array_wire_dims", "evaluated array has axes %r, the requested permutation of "
+                "wires of dimensions %r has axes %r" % (got.shape, dims, exp.shape))
+    if got is None or got.shape != exp.shape or not (got == exp).all():
+        text = "evaluated array (shape %r) is not the 0/1 matrix of the requested permutation " \
+               "(shape %r)" % (getattr(arr, "shape", None), exp.shape)
+        if got is not None and got.shape == exp.shape:
+            bad = [tuple(int(x) for x in idx) for idx in zip(*(got != exp).nonzero())][:1]
+            if bad:
+                text += "; first differing entry at %r: %d, expected %d" % (
+                    bad[0], got[bad[0]], exp[bad[0]])
+        return ("array_not_permutation_matrix", text)
     return None
+
+
+def cqmap_failure(v, cdom, qdom, ccod, qcod, udims, vperm):
+    """The CQMap `v` must be the wire permutation `vperm` of its underlying wires `udims`:
+    its types, the wire dimensions of its underlying tensor (the class documents
+    `dom.classical @ dom.quantum ** 2 -> cod.classical @ cod.quantum ** 2`) and its entries."""
+    got = (dim_list(v.dom.classical), dim_list(v.dom.quantum),
+           dim_list(v.cod.classical), dim_list(v.cod.quantum))
+    if got != (cdom, qdom, ccod, qcod):
+        return ("cq_type", "the classical-quantum map has type C%r Q%r -> C%r Q%r, the wires "
+                "requested give C%r Q%r -> C%r Q%r" % (got + (cdom, qdom, ccod, qcod)))
+    ut = v.utensor
+    uout = permuted(udims, vperm)
+    if dim_list(ut.dom) != udims or dim_list(ut.cod) != uout:
+        return ("cq_underlying_wire_dims", "the underlying tensor has wires %r -> %r; classical "
+                "@ quantum @ quantum of the requested types is %r -> %r" % (
+                    dim_list(ut.dom), dim_list(ut.cod), udims, uout))
+    return array_failure(v.array, udims, vperm)
+
+
+def evaluated_failure(v, kinds, perm):
+    """The value `v` of an evaluated circuit of swaps on wires `kinds` must be the wire
+    permutation `perm`, in the layout of the class that came back."""
+    from discopy.quantum.cqmap import CQMap
+    if isinstance(v, CQMap):
+        return cqmap_failure(v, *cq_layout(kinds, perm))
+    dims = [d for _, d in kinds]
+    if dim_list(v.dom) != dims or dim_list(v.cod) != permuted(dims, perm):
+        return ("tensor_wire_dims", "the evaluated tensor has type %r -> %r, the wires give "
+                "%r -> %r" % (dim_list(v.dom), dim_list(v.cod), dims, permuted(dims, perm)))
+    return array_failure(v.array, dims, perm)
 
 
 def is_perm(p):
@@ -481,6 +603,29 @@ def build_cases(tier, rng, classes):
             for a, b in [(2, 3), (3, 2), (1, 4), (3, 3), (2, 4)]:
                 spec = cls.small(a + b)
                 cases.append((cls.name, ("swap", spec[:a], spec[a:])))
+        # circuit: wires of DIFFERENT kinds and dimensions, systematically — every ordered pair
+        # of wire kinds swapped, every pair of widths <= 2 (thorough 3) on seeded kinds, every
+        # permutation of 3 wires (thorough: 4, a seeded sample) on seeded kinds that are not
+        # all alike; small enough for both evaluations
+        if cls.name == "circuit":
+            pool = CLASSICAL_WIRES + QUANTUM_WIRES
+            for a in pool:
+                for b in pool:
+                    cases.append((cls.name, ("swap", [(a, 0)], [(b, 0)])))
+            top2 = 2 if quick else 3
+            for a in range(top2 + 1):
+                for b in range(top2 + 1):
+                    for _ in range(2 if quick else 4):
+                        spec = [(crng.choice(SMALL_WIRES), 0) for _ in range(a + b)]
+                        cases.append((cls.name, ("swap", spec[:a], spec[a:])))
+            for n, count in ((3, 3 if quick else 12), (4, 0 if quick else 3)):
+                for p in all_perms(n):
+                    for _ in range(count if n == 3 or not involutive(p) else 0):
+                        spec = [(crng.choice(SMALL_WIRES), 0) for _ in range(n)]
+                        if len(set(spec)) == 1:
+                            spec[crng.randrange(n)] = (crng.choice(
+                                [w for w in SMALL_WIRES if w != spec[0][0]]), 0)
+                        cases.append((cls.name, ("perm", p, spec)))
         # random longer ones
         for _ in range(12 if quick else 150):
             n = crng.randint(max_exh + 1, 10)
@@ -621,9 +766,17 @@ def run(tier, seed, replay=None):
                 "every permutation() call receives the caller's list "
                 "object itself, which must read the same afterwards, and groups of three requests "
                 "(two classes, three domains) share ONE list object; permute() on all permutations "
-                "of 3 wires and non-involutive ones of 4-5 wires; non-trivial = a non-involutive permutation of length "
-                ">= 3, or a swap of widths >= 1 with >= 3 wires; distinct by (class, request)"
-                % ((5, 5, 3) if quick else (6, 7, 4)))
+                "of 3 wires and non-involutive ones of 4-5 wires; circuit wires are bits, Digit(3), "
+                "Digit(5), qubits, Qudit(3), Qudit(4): qubits only / bits only / bits and qubits / "
+                "wires of different dimensions, every ordered pair of wire kinds swapped, every pair "
+                "of widths <= %d and every permutation of 3 wires on seeded kinds not all alike, each "
+                "evaluated with eval() and eval(mixed=True); CQMap.swap(left, right) directly on "
+                "every combination of lengths 0..2 of the classical and quantum part of either side "
+                "(78 of the 81; the rest exceeds 1600000 entries) with seeded dimensions 2..5, seeded lengths up to %d and pinned witnesses, types "
+                "built as CQ(c, q) / C(c) @ Q(q) / Q(q) @ C(c) / wire by wire; non-trivial = a "
+                "non-involutive permutation of length >= 3, a swap of widths >= 1 with >= 3 wires, or "
+                "a CQMap.swap whose quantum parts are non-empty and differ; distinct by (class, request)"
+                % ((5, 5, 3, 2, 3) if quick else (6, 7, 4, 3, 4)))
     rep.partial = []
     rep.assumptions = [
         "perm is a Python list; its entries are ints, or (refusal grid only) hashable values that "
@@ -632,8 +785,16 @@ def run(tier, seed, replay=None):
         "outside the model",
         "the per-class factories differ from monoidal.Diagram.swap/permutation only in "
         "ar_factory/swap_factory (tied by the field-by-field comparison of every class)",
-        "array evaluation (tensor, circuit) is an oracle-only clause; tensors beyond 400000 "
-        "entries and mixed circuits beyond 9 classical+doubled quantum axes are not evaluated"]
+        "array evaluation of tensor diagrams and Tensor.swap is an oracle-only clause (numpy "
+        "moveaxis is modelled under C08/C09); arrays beyond 400000 entries are not evaluated, "
+        "classical-quantum evaluations of more than 4 layers are thinned to every second (thorough: "
+        "fourth) one, "
+        "and eval(mixed=True) of a circuit that is mixed anyway is the eval() already made",
+        "CQMap.swap and the evaluation of circuits of swaps are compared with the model "
+        "(Model/CQ.lean; cq_swap_spec) while the model's cost fits the budget (cqexpr swap up to "
+        "100000 entries; cqeval up to the cost budget of the tier), and with the harness's own "
+        "permutation tensor up to 1600000 entries",
+        "the wire dimensions of digits and qudits are >= 2 (Dim drops wires of dimension 1)"]
     rep.lean = lean_obligations(PROP, thorough=not quick)
     rng = random.Random(seed)
     classes = [Monoidal(), Rigid(), TensorC(), CircuitC(), ZXC()]
@@ -641,22 +802,221 @@ def run(tier, seed, replay=None):
     cases = build_cases(tier, rng, classes)
     drv = Driver()
     shared = {}
+    pending = []
+    import sys
+    import time
+    t0 = [time.time()]
+
+    def lap(what):
+        if os.environ.get("VERIF_TIMING"):
+            sys.stderr.write("[c10] %-12s %.1fs\n" % (what, time.time() - t0[0]))
+        t0[0] = time.time()
     try:
         lines = []
         for cname, req in cases:
             a, b = model_lines(by_name[cname], req)
             lines += [a, b]
         answers = drv.ask_many(lines)
+        lap("model")
         for k, (cname, req) in enumerate(cases):
             cls = by_name[cname]
             model_eval, model_wires = answers[2 * k], answers[2 * k + 1]
-            check_case(rep, cls, req, lines[2 * k], model_eval, model_wires, shared)
+            check_case(rep, cls, req, lines[2 * k], model_eval, model_wires, shared, pending)
+        lap("cases")
+        cq_eval_stream(rep, drv, pending, 6e6 if quick else 6e7)
+        lap("cq-eval")
+        cq_swap_stream(rep, drv, random.Random(rng.getrandbits(64)), quick)
+        lap("cq-swap")
     finally:
         drv.close()
     return rep.finish()
 
 
-def check_case(rep, cls, req, line, model_eval, model_wires, shared=None):
+# --------------------------------------------------------------------------- evaluation targets
+
+def cq_eval_stream(rep, drv, pending, budget):
+    """Correspondence `cq-eval`: the value of each evaluated circuit of swaps against the Lean
+    model's evaluation of the same circuit (Model/CQ.lean `Circuit.eval`, which sends a Swap box
+    to `CQMap.swap` / `Mat.swap` as circuit.py:251 and monoidal.py:836 do), while the model's
+    cost (cubic in the size of the underlying index) fits the budget."""
+    import cqsem
+    asks, meta, spent, seen = [], [], 0.0, set()
+    costed = []
+    for k, (how, d, v, case) in enumerate(pending):
+        cost = cqsem.model_cost(d) if type(v).__name__ == "CQMap" else plain_cost(d)
+        alike = len(set(x.dim for x in d.dom.objects)) <= 1
+        costed.append((alike, cost, k))
+    # wires of different dimensions first, cheap before dear: the budget then reaches many cases
+    for alike, cost, k in sorted(costed):
+        how, d, v, case = pending[k]
+        line, why = cqsem.tok_circuit(d)
+        if line is None:
+            rep.count("cq_eval_model_skipped:" + why)
+            continue
+        ask = "cqeval %s %s" % (how, line)
+        if ask in seen:
+            continue
+        if cost > budget / 4 or spent + cost > budget:
+            rep.count("cq_eval_model_skipped:cost")
+            continue
+        spent += cost
+        seen.add(ask)
+        asks.append(ask)
+        meta.append((v, case))
+    answers = drv.ask_many(asks)
+    for ask, (v, case), model in zip(asks, meta, answers):
+        try:
+            verdict = compare_with_model(cqsem.ans_cq_value(v), model)
+        except Exception as e:
+            rep.fail("cq_eval_unreadable_value", case, repr(e)[:300])
+            continue
+        rep.count("model_answers:cq-eval:" + verdict)
+        rep.count("cq_eval_compared:" + ask.split(" ")[1] + ":" + type(v).__name__)
+        if verdict == "differ":
+            real = cqsem.ans_cq_value(v)
+            rep.disagree("cq-eval", dict(case, request=ask[:400]),
+                         (real.tokens() or real.header + " <floats>")[:400], model[:400])
+
+
+def compare_with_model(real, model):
+    """cqsem.compare_answer, with a fast path for arrays of exact integers (every array of this
+    check should be one): 'exact' | 'numeric' | 'differ'."""
+    import cqsem
+    ints = exact_int_array(real.entries)
+    if ints is None:
+        return cqsem.compare_answer(real, model)
+    flat = ints.reshape(-1).tolist()
+    lut = {k: "%d,0,0,0/0" % k for k in set(flat)}
+    toks = " ".join([real.header, str(len(flat))] + [lut[x] for x in flat])
+    return "exact" if toks == model else "differ"
+
+
+def plain_cost(d):
+    """Rough number of scalar multiplications of the model's plain (tensor) evaluation."""
+    import cqsem
+    size = cqsem.ty_size(d.dom)
+    return float(len(d.boxes)) * (size + 8) * size * size
+
+
+def cq_types(rng, quick):
+    """Pairs of classical-quantum types (lc, lq, rc, rq) — lists of wire dimensions of the
+    classical and the quantum part of left and right: every combination of the four lengths in
+    0..2 (but the 3 of the 81 whose tensor exceeds 1600000 entries even on wires of dimension 2:
+    two quantum wires on either side with three or four classical wires) with seeded dimensions
+    from 2..5, seeded longer ones, pinned witnesses."""
+    out, dropped = [], []
+
+    def dims(n, pool):
+        return [rng.choice(pool) for _ in range(n)]
+
+    def fits(t, limit):
+        lc, lq, rc, rq = t
+        return (product(lc + rc) * product(lq + rq) ** 2) ** 2 <= limit
+
+    def add(a, b, c, d):
+        # two in three small enough for the comparison with the model, the others up to the
+        # size the harness's own permutation tensor handles
+        first = 4 * MAX_ENTRIES if len(out) % 3 == 0 else MODEL_ENTRIES
+        for limit in (first, 4 * MAX_ENTRIES):
+            for pool in ([2, 3, 4, 5], [2, 3, 4, 5], [2, 3], [2, 3], [2, 3], [2]):
+                for _ in range(4):
+                    t = (dims(a, pool), dims(b, pool), dims(c, pool), dims(d, pool))
+                    if fits(t, limit):
+                        out.append(t)
+                        return
+        dropped.append((a, b, c, d))                # too large even on wires of dimension 2
+
+    top = 2
+    for a, b, c, d in itertools.product(range(top + 1), repeat=4):
+        for _ in range(1 if quick else 3):
+            add(a, b, c, d)
+    for _ in range(30 if quick else 400):
+        add(*[rng.choice([0, 1, 1, 2, 3, 3 if quick else 4]) for _ in range(4)])
+    # quantum parts of equal dimensions and different lengths (right shape, wrong wires if the
+    # conjugate copy is permuted differently), of different dimensions, empty sides
+    out += [([], [2], [], [2, 2]), ([], [2, 2, 2], [], [2]), ([], [3], [], [2]),
+            ([2], [3], [3, 2], [2, 2]), ([], [], [], [2, 3]), ([], [2, 3], [], []),
+            ([2], [], [], [3]), ([], [2], [], [2]), ([2], [], [3], []), ([], [], [], []),
+            ([], [3, 3], [], [3]), ([2, 3], [], [3], []), ([], [2, 3], [], [3, 2])]
+    return out, dropped
+
+
+def cq_type(style, c, q):
+    """The CQ type with classical wires c and quantum wires q, through one of the constructors
+    the class offers (cqmap.py:27-99): CQ(c, q), C(c) @ Q(q), Q(q) @ C(c), wire by wire."""
+    from discopy.tensor import Dim
+    from discopy.quantum.cqmap import CQ, C, Q
+    if style == 0:
+        return CQ(Dim(*c), Dim(*q))
+    if style == 1:
+        return C(Dim(*c)) @ Q(Dim(*q))
+    if style == 2:
+        return Q(Dim(*q)) @ C(Dim(*c))
+    if not c and q:
+        return Q(Dim(*q))
+    if not q and c:
+        return C(Dim(*c))
+    return CQ().tensor(*([C(Dim(x)) for x in c] + [Q(Dim(x)) for x in q]))
+
+
+def cq_swap_stream(rep, drv, rng, quick):
+    """`CQMap.swap(left, right)` itself (cqmap.py:188-193), the value every Swap box of a mixed
+    circuit is sent to.  Oracle: type left @ right -> right @ left; underlying tensor on
+    classical @ quantum @ quantum whose wires are block-exchanged in each of the three parts;
+    entries the 0/1 permutation tensor.  Correspondence `cq-swap`: the model's `CQMap.swap`."""
+    import cqsem
+    from discopy.quantum.cqmap import CQMap
+    cases, dropped = cq_types(rng, quick)
+    rep.count("cq_swap_lengths_too_large", len(dropped))
+    asks, meta = [], []
+    for k, (lc, lq, rc, rq) in enumerate(cases):
+        style = k % 4
+        case = dict(cls="cqmap", request="CQMap.swap(left, right)",
+                    left="C%r Q%r" % (lc, lq), right="C%r Q%r" % (rc, rq), constructor=style)
+        udims = lc + rc + 2 * (lq + rq)
+        vperm = block_exchange(len(lc), len(rc))
+        vperm += block_exchange(len(lq), len(rq), len(lc + rc))
+        vperm += block_exchange(len(lq), len(rq), len(lc + rc) + len(lq + rq))
+        rel = ("equal" if lq == rq else "different_length" if len(lq) != len(rq)
+               else "different_dimensions")
+        rep.count("cq_swap")
+        rep.count("cq_swap_quantum_parts:" + rel)
+        rep.count("cq_swap_lengths:c%dq%d_x_c%dq%d" % (len(lc), len(lq), len(rc), len(rq)))
+        if len(set(udims)) > 1:
+            rep.count("cq_swap_wires_of_different_dimensions")
+        rep.case("cqmap swap %r %r %r %r %d" % (lc, lq, rc, rq, style),
+                 lq != rq and bool(lq) and bool(rq))
+        try:
+            left, right = cq_type(style, lc, lq), cq_type(style, rc, rq)
+            case["left"], case["right"] = repr(left), repr(right)
+            v = CQMap.swap(left, right)
+            why = cqmap_failure(v, lc + rc, lq + rq, rc + lc, rq + lq, udims, vperm)
+        except Exception as e:
+            rep.fail("evaluation_raised:CQMap.swap", case, repr(e)[:300])
+            continue
+        if why is not None:
+            rep.fail(why[0] + ":CQMap.swap", case, why[1])
+        if product(udims) ** 2 <= MODEL_ENTRIES:
+            asks.append("cqexpr swap %s %s %s %s" % (
+                cqsem.tok_dims(lc), cqsem.tok_dims(lq), cqsem.tok_dims(rc), cqsem.tok_dims(rq)))
+            meta.append((v, case))
+        else:
+            rep.count("cq_swap_model_skipped:size")
+    answers = drv.ask_many(asks)
+    for ask, (v, case), model in zip(asks, meta, answers):
+        try:
+            real = cqsem.ans_cqmap(v)
+            verdict = compare_with_model(real, model)
+        except Exception as e:
+            rep.fail("cq_swap_unreadable_value", case, repr(e)[:300])
+            continue
+        rep.count("model_answers:cq-swap:" + verdict)
+        if verdict == "differ":
+            rep.disagree("cq-swap", dict(case, request=ask),
+                         (real.tokens() or real.header + " <floats>")[:400], model[:400])
+
+
+def check_case(rep, cls, req, line, model_eval, model_wires, shared=None, pending=None):
     op = req[0]
     case = dict(cls=cls.name, request=repr(req))
     key = cls.name + " " + line
@@ -812,24 +1172,19 @@ def check_case(rep, cls, req, line, model_eval, model_wires, shared=None):
     except Exception as e:
         rep.fail("oracle_exception:" + sig, case, repr(e)[:300])
     # ---- oracle, evaluated arrays
+    if cls.name == "circuit":
+        circuit_evaluations(rep, cls, d, dom_spec, want, case, sig, pending)
+        return
     if cls.evaluates and not (default and cls.name == "tensor"):
-        exp = expected_array(cls, dom_spec, want)
-        if exp is None:
+        if not evaluable(dom_spec):
             rep.count("array_not_evaluated:" + cls.name)
             return
         try:
-            if cls.name == "tensor":
-                arr = cls.evaluate(d)
-            else:
-                arr = d.eval().array
-            got = exact_int_array(arr)
+            arr = cls.evaluate(d)
             rep.count("array_evaluated:" + cls.name)
-            if exp.ndim == 0 and got is not None and got.size == 1:
-                got = got.reshape(())              # the empty diagram: a 1 x 1 identity
-            if got is None or got.shape != exp.shape or not (got == exp).all():
-                rep.fail("array_not_permutation_matrix:" + sig, case,
-                         "evaluated array (shape %r) is not the 0/1 matrix of the requested "
-                         "permutation (shape %r)" % (getattr(arr, "shape", None), exp.shape))
+            why = array_failure(arr, [m for m, _ in dom_spec], want)
+            if why is not None:
+                rep.fail(why[0] + ":" + sig, case, why[1])
         except Exception as e:
             rep.fail("evaluation_raised:" + sig, case, repr(e)[:300])
         # ---- oracle: the tensor-valued swap itself, `Tensor.swap(left, right)` (tensor.py:231),
@@ -837,16 +1192,57 @@ def check_case(rep, cls, req, line, model_eval, model_wires, shared=None):
         if cls.name == "tensor" and op == "swap":
             try:
                 t = cls.m.Tensor.swap(cls.ty(req[1]), cls.ty(req[2]))
-                got = exact_int_array(t.array)
                 rep.count("array_evaluated:Tensor.swap")
-                if exp.ndim == 0 and got is not None and got.size == 1:
-                    got = got.reshape(())
                 if t.dom != cls.ty(dom_spec) or t.cod != cls.ty(req[2] + req[1]):
                     rep.fail("tensor_swap_type:tensor", case, "Tensor.swap has type %r -> %r" % (
                         t.dom, t.cod))
-                elif got is None or got.shape != exp.shape or not (got == exp).all():
+                elif array_failure(t.array, [m for m, _ in dom_spec], want) is not None:
                     rep.fail("tensor_swap_not_block_exchange:tensor", case,
                              "Tensor.swap(left, right).array is not the 0/1 matrix that moves "
                              "the wires of left, in order, to the right of those of right")
             except Exception as e:
                 rep.fail("evaluation_raised:Tensor.swap", case, repr(e)[:300])
+
+
+def circuit_evaluations(rep, cls, d, dom_spec, want, case, sig, pending):
+    """A circuit of swaps, evaluated as `eval()` and as `eval(mixed=True)`: whichever class comes
+    back (Tensor: one axis per wire; CQMap: classical wires once, quantum wires twice), its wire
+    dimensions and entries must be those of the requested wire permutation.  The evaluated value
+    is also queued for the comparison with the model's evaluation of the same circuit."""
+    kinds = [wire_kind(m) for m, _ in dom_spec]
+    dims = [k[1] for k in kinds]
+    hetero = len(set(dims)) > 1
+    for flag in (False, True):
+        how = "mixed" if flag else "auto"
+        try:
+            mixed_circuit = bool(d.is_mixed)
+            if flag and mixed_circuit:
+                # a mixed circuit goes through cqmap.Functor with or without the flag
+                # (circuit.py:251): the evaluation just made is this one
+                rep.count("array_evaluated:circuit:mixed:same_path_as_auto")
+                continue
+            as_cq = flag or mixed_circuit
+            udims = cq_layout(kinds, want)[4] if as_cq else dims
+            if product(udims) ** 2 > MAX_ENTRIES:
+                rep.count("array_not_evaluated:circuit:" + how)
+                continue
+            if as_cq and len(d.boxes) > 4:
+                # CQMap.tensor costs ~30 ms of Python per layer whatever the size: long
+                # classical-quantum evaluations are thinned to every second (thorough: fourth) one
+                rep.cq_long = getattr(rep, "cq_long", 0) + 1
+                if rep.cq_long % (2 if rep.tier == "quick" else 4) != 1:
+                    rep.count("array_not_evaluated:circuit:%s:thinned" % how)
+                    continue
+            v = d.eval(mixed=True) if flag else d.eval()
+        except Exception as e:
+            rep.fail("evaluation_raised:%s:%s" % (sig, how), dict(case, mixed=flag), repr(e)[:300])
+            continue
+        rep.count("array_evaluated:circuit:%s:%s" % (how, type(v).__name__))
+        rep.count("array_evaluated:circuit")
+        if hetero:
+            rep.count("array_evaluated:circuit:%s:wires_of_different_dimensions" % how)
+        why = evaluated_failure(v, kinds, want)
+        if why is not None:
+            rep.fail("%s:%s:%s" % (why[0], sig, how), dict(case, mixed=flag), why[1])
+        if pending is not None:
+            pending.append((how, d, v, dict(case, mixed=flag)))
